@@ -312,7 +312,7 @@ def p_power(size=128, relnz=0.3, p=2, seed=1): #relnz=0.65, p=2.3
     F[F < f[k]] = 0
     x = F/f[0]
     if Nodd:
-        x = F[1:-1,1:-1]
+        x = x[:-1,:-1] # back to size x size (the pattern was generated on size+1)
     
     return x
 
